@@ -398,3 +398,61 @@ def C10(tier):
              "nx1, 2- and 3-byte column counts, 2-byte row counts, random <= 40x40) of every entry kind with 100-500 writes each, "
              "whole-buffer before/after comparison against the documented layout; distinct = seeded case, counted on rel",
              extra_cov=dict(exhaustive_over_header_width_pairs=True))
+
+
+# --------------------------------------------------------------------------- C11
+BS32 = dict(extra_cflags=("-DVBITS=uint32_t", "-DVBITSVAL=uint32_t"))
+
+
+def C11(tier):
+    c = Check("C11", tier)
+    reps = sz(tier, 8, 256)
+    rounds = sz(tier, 3, 8)
+    n64, n32 = 64 * 64 * rounds, 32 * 32 * rounds
+    for tag, kw, n in (("64", {}, n64), ("32", BS32, n32)):
+        c.spec("bits%s-asan" % tag, "asan", "drv_bitstream", "c11", per_shard(n), params=[reps], build_kw=kw)
+        c.spec("bits%s-rel" % tag, "rel", "drv_bitstream", "c11", per_shard(n), params=[reps], build_kw=kw)
+        c.spec("bits%s-dbg" % tag, "dbg", "drv_bitstream", "c11", per_shard(n), params=[reps], build_kw=kw, shards=[0, 1, 2, 3])
+        c.spec("bits%s-clang" % tag, "clang", "drv_bitstream", "c11", per_shard(n), params=[reps], build_kw=kw, shards=[4, 5, 6, 7])
+    c.require("oneword_writes", c.stat("c11_oneword_writes"), 10000)
+    c.require("twoword_writes", c.stat("c11_twoword_writes"), 10000)
+    c.require("fullwidth_unaligned", c.stat("c11_fullwidth_unaligned"), 1000)
+    c.require("signed_roundtrips", c.stat("c11_signed_roundtrips"), 10000)
+    c.require("append_sequences", c.stat("c11_append_sequences"), 50)
+    c.require("pairs_enumerated_rel", c.extra["per_cfg"].get("distinct_nontrivial@rel", 0), 64 * 64 + 32 * 32)
+    c.assumptions = ["word types: the two documented ones (uint64_t default; VBITS=VBITSVAL=uint32_t)", "value < 2^width; PrepareSigned applied to negative values only"]
+    c.finish(c.stat("c11_writes"), c.extra["per_cfg"].get("distinct_nontrivial@rel", 0),
+             "all (offset mod word, width) pairs enumerated exhaustively for both word types (64x64 + 32x32), each at 3 absolute word "
+             "positions x %d (value, prior contents) samples incl. all-zero/all-one backgrounds; stream is an exact-size block ending "
+             "at the last overlapped word; whole-stream before/after comparison against an MSB-first bit model; signed helper round "
+             "trips; 1000-field append sequences; distinct = (word type, offset, width) per round" % reps,
+             extra_cov=dict(exhaustive_over_offset_width_pairs=True))
+
+
+# --------------------------------------------------------------------------- C14
+C14_EPS = ["varintTaggedGet", "varintDictDecode", "varintDictDecodeInto", "varintEliasGammaDecodeArray", "varintEliasDeltaDecodeArray",
+           "varintBitmapDecode", "varintRLEGetRunCount"]
+
+
+def C14(tier):
+    c = Check("C14", tier)
+    n = sz(tier, 7 * 40_000, 7 * 2_000_000)
+    count = per_shard(n)
+    c.spec("hostile-asanR", "asanR", "drv_hostile", "c14", count, build_kw=WRAP, timeout=1800)
+    c.spec("hostile-asan", "asan", "drv_hostile", "c14", count, shards=list(range(8)), build_kw=WRAP, timeout=1800)
+    c.spec("hostile-rel", "rel", "drv_hostile", "c14", count, build_kw=WRAP, timeout=1800)
+    for ep in C14_EPS:
+        c.require("accepted." + ep, c.stat("accepted." + ep), 500)
+        c.require("rejected." + ep, c.stat("rejected." + ep), 500)
+        for k in ("valid", "truncation", "mutation", "random", "hostile-header"):
+            c.require("kind.%s.%s" % (ep, k), c.stat("kind.%s.%s" % (ep, k)), 300)
+    c.require("truncations", c.stat("c14_truncations"), 50000)
+    c.assumptions = ["every input is an exact-size heap copy of exactly the declared bytes (ASan red zone at the declared size)",
+                     "Elias bit counts that are not multiples of 8: the remaining bits of the last byte are checked by running with them 0 and 1",
+                     "allocation cap per call: max(16 MiB, 64 x declared length), observed by a link-time malloc wrapper",
+                     "termination: 10 s alarm per input"]
+    c.finish(c.stat("c14_inputs"), c.extra["per_cfg"].get("distinct_nontrivial@rel", 0),
+             "per entry point: complete valid encodings, every truncation of short valid encodings (sampled for long ones; bit "
+             "granularity for Elias), 1-3 byte/bit mutations, random strings of 0-64 and up to 4096 bytes, structured hostile headers "
+             "(counts 2^61..2^64-1 that wrap count*width, dictionary sizes at/over the cap, Elias prefixes > 64 bits, bitmap type bytes "
+             "and cardinalities far beyond the input, cut run varints); distinct = seeded case (entry point x kind), counted on rel")
